@@ -216,7 +216,7 @@ impl ModelCfg {
 
 fn raw_ngram() -> impl Strategy<Value = RawNgram> {
     (
-        vec(any::<u16>(), 1..=6),
+        prop_oneof![9 => vec(any::<u16>(), 1..=6), 1 => vec(any::<u16>(), 7..=12)],
         prop::option::weighted(0.35, (any::<u16>(), 1u8..=3)),
         vec(weight(), 16),
     )
@@ -229,7 +229,7 @@ fn raw_ngram() -> impl Strategy<Value = RawNgram> {
 
 fn raw_type_ngram() -> impl Strategy<Value = RawTypeNgram> {
     (
-        vec(1u8..=6, 1..=6),
+        prop_oneof![9 => vec(1u8..=6, 1..=6), 1 => vec(1u8..=6, 7..=10)],
         prop::option::weighted(0.35, (any::<u16>(), 1u8..=3)),
         vec(weight(), 16),
     )
@@ -242,7 +242,7 @@ fn raw_type_ngram() -> impl Strategy<Value = RawTypeNgram> {
 
 fn raw_word() -> impl Strategy<Value = RawWord> {
     (
-        prop_oneof![4 => vec(any::<u16>(), 1..=4), 1 => vec(any::<u16>(), 5..=12)],
+        prop_oneof![8 => vec(any::<u16>(), 1..=4), 2 => vec(any::<u16>(), 5..=12), 1 => vec(any::<u16>(), 13..=45)],
         prop::option::weighted(0.3, (any::<u16>(), 0u8..=2)),
         vec(weight(), 16),
     )
@@ -376,7 +376,7 @@ pub fn resolve_model(raw: &RawModel) -> ModelCase {
                 }
             }
         }
-        cs.truncate((2 * cw).min(6).max(1));
+        cs.truncate((2 * cw).min(12).max(1));
         if ngram_chars.contains(&cs) {
             continue;
         }
@@ -399,7 +399,7 @@ pub fn resolve_model(raw: &RawModel) -> ModelCase {
                 }
             }
         }
-        ts.truncate((2 * tw).min(6).max(1));
+        ts.truncate((2 * tw).min(10).max(1));
         if type_ngrams.iter().any(|o| o.ngram == ts) {
             continue;
         }
